@@ -71,6 +71,8 @@ func (g *genState) coremalOp() CoreOp {
 			k = key("fmove")
 		}
 		op = CoreOp{Kind: "alloc", Key: k, Node: g.malPickNode(false), Foreign: true, Res: CoreRes{"memory": 1 + int64(r.Intn(4))}}
+		op.Malformed = false // invalid only when the key exists on another node: the specification decides
+		return op
 	case 7: // unset / empty / zero / negative / mixed resources
 		op = CoreOp{Kind: "alloc", App: app, Key: key("res")}
 		switch r.Intn(5) {
@@ -108,7 +110,7 @@ func (g *genState) coremalOp() CoreOp {
 		g.nextApp++
 		op = CoreOp{Kind: "app_add", App: fmt.Sprintf("app-%d", g.nextApp), Queue: g.pick(g.leaves), User: "u1", Groups: []string{"g1"}, Partition: "[rm-1]nopartition"}
 	case 14: // release of an absent key, every termination type (also values outside the enum)
-		op = CoreOp{Kind: "release", App: app, Key: key("norel"), TType: []int32{0, 1, 2, 3, 4, 7, -1}[r.Intn(7)]}
+		op = CoreOp{Kind: "release", App: app, Key: key("norel"), TType: []int32{0, 1, 2, 3, 4, 7, 99}[r.Intn(7)]}
 	case 15: // release for an unknown application
 		op = CoreOp{Kind: "release", App: "app-unknown", Key: g.pick(g.allKeys), TType: int32(r.Intn(5))}
 	case 16: // release of an absent foreign allocation
